@@ -103,7 +103,7 @@ func (fx *FnCtx) globalValue(st *State, g *ssa.Global) Value {
 	}
 	fx.V.tableFacts(fx, g, v)
 	// sentinel errors (package-level variables of type error named EOF/Err*): non-nil, pairwise distinct
-	if types.Identical(t, types.Universe.Lookup("error").Type()) && (g.Name() == "EOF" || strings.HasPrefix(g.Name(), "Err")) {
+	if types.Identical(t, types.Universe.Lookup("error").Type()) && (g.Name() == "EOF" || strings.HasPrefix(g.Name(), "Err") || fx.V.initOnlyError(g)) {
 		marker := Sym("sentinel_"+name, BoolSort)
 		if !fx.root.heapAxiomDone[marker] {
 			fx.root.heapAxiomDone[marker] = true
@@ -1027,7 +1027,9 @@ func (fx *FnCtx) stringsEqual(x, y Value) *Term {
 		return Bool(kx.Val.Cmp(ky.Val) == 0)
 	}
 	r := Eq(kx, ky)
-	fx.assume(Implies(r, Eq(x.L[2], y.L[2])))
+	if !r.hasBnd && !x.L[2].hasBnd && !y.L[2].hasBnd {
+		fx.assume(Implies(r, Eq(x.L[2], y.L[2])))
+	}
 	return r
 }
 
@@ -1169,4 +1171,83 @@ func (fx *FnCtx) convInt(pc *Term, x *Term, from, to types.Type, checked bool) *
 	// narrowing or sign change: Go wraps silently. Model the wrap exactly.
 	r := wrapInt(x, to)
 	return r
+}
+
+var initOnlyErrCache = map[*ssa.Global]bool{}
+
+// initOnlyError: the package-level error variable is assigned exactly once, in the package
+// initialiser, from errors.New or fmt.Errorf, and nowhere else in its package: it is non-nil, distinct
+// from every other such variable, and constant.
+func (v *Verifier) initOnlyError(g *ssa.Global) bool {
+	if r, ok := initOnlyErrCache[g]; ok {
+		return r
+	}
+	res := false
+	defer func() { initOnlyErrCache[g] = res }()
+	if g.Pkg == nil {
+		return false
+	}
+	stores := 0
+	good := true
+	var visit func(f *ssa.Function)
+	seen := map[*ssa.Function]bool{}
+	visit = func(f *ssa.Function) {
+		if f == nil || seen[f] {
+			return
+		}
+		seen[f] = true
+		for _, b := range f.Blocks {
+			for _, ins := range b.Instrs {
+				for _, op := range ins.Operands(nil) {
+					if *op != ssa.Value(g) {
+						continue
+					}
+					switch t := ins.(type) {
+					case *ssa.Store:
+						if t.Addr != ssa.Value(g) {
+							good = false // the address escapes into a store
+							continue
+						}
+						stores++
+						isInit := f.Name() == "init" || strings.HasPrefix(f.Name(), "init#")
+						call, isCall := t.Val.(*ssa.Call)
+						if !isInit || !isCall {
+							good = false
+							continue
+						}
+						callee, _ := call.Call.Value.(*ssa.Function)
+						if callee == nil || callee.Pkg == nil {
+							good = false
+							continue
+						}
+						k := callee.Pkg.Pkg.Path() + "." + callee.Name()
+						if k != "errors.New" && k != "fmt.Errorf" {
+							good = false
+						}
+					case *ssa.UnOp, *ssa.DebugRef:
+					default:
+						good = false
+					}
+				}
+			}
+		}
+		for _, a := range f.AnonFuncs {
+			visit(a)
+		}
+	}
+	for _, m := range g.Pkg.Members {
+		switch f := m.(type) {
+		case *ssa.Function:
+			visit(f)
+		case *ssa.Type:
+			for _, t := range []types.Type{f.Type(), types.NewPointer(f.Type())} {
+				ms := v.prog.MethodSets.MethodSet(t)
+				for i := 0; i < ms.Len(); i++ {
+					visit(v.prog.MethodValue(ms.At(i)))
+				}
+			}
+		}
+	}
+	res = good && stores == 1
+	return res
 }
